@@ -108,6 +108,14 @@ class ShapeSpec:
     def world(self, dims, pos, ypr):
         return self.unit.placed(dims, pos, go.rotation(*ypr))
 
+    def make_shape(self):
+        """What the Scenic expression `self.src` evaluates to (a fresh instance)."""
+        import scenic.core.shapes as sh
+
+        if self.mesh_id is not None:
+            return sh.MeshShape(_geom.MESHES[self.mesh_id])
+        return {"box": sh.BoxShape, "cyl": sh.CylinderShape, "cone": sh.ConeShape, "sph": sh.SpheroidShape}[self.kind]()
+
 
 _PRIMS = {}
 
